@@ -85,10 +85,16 @@ def run(prop, tier, seed):
     for p in progs:
         for shared in (0, 1):
             dfs.append(({'shared': shared}, p, 2, 80 if tier == 'quick' else 500, seed))
+        for key in ('a', 'k1'):
+            dfs.append(({'shared': 0, 'fanout': 3, 'key': key}, p, 2, 60 if tier == 'quick' else 300, seed))
     for i in range(60 if tier == 'quick' else 1500):
         prog = {c: [rng.choice([('add', rng.choice(vals)), ('add', rng.choice(vals)), ('get',), ('pop',)]) for _ in range(rng.randint(1, 3))]
                 for c in range(1, rng.choice([2, 3]) + 1)}
-        rnd.append(({'shared': rng.randrange(2)}, prog, seed * 1000 + i))
+        cfg_ = {'shared': rng.randrange(2)}
+        if rng.random() < 0.35:
+            # the Averager in a FanoutCache with several shards (its block spans all of them), keys on different shards
+            cfg_.update(fanout=rng.choice([2, 3]), key=rng.choice(['latency', 'a', 'b', 'size', 'k1']))
+        rnd.append((cfg_, prog, seed * 1000 + i))
     for i in range(60 if tier == 'quick' else 1200):
         count, seconds = rng.choice([(1, 1), (2, 1), (3, 2), (1, 2)])
         q = 4
